@@ -537,7 +537,7 @@ func runC02(w *World, r *Report) {
 	r.Rule("C02.skip-propagates-on-the-transition", "dagChannel.reportSkip answers 'became skipped' — true only where the channel was not skipped before (what it returns depends on the value Skipped had on entry): reportBranch enqueues every node reportSkip answers true for, a successor is listed once per edge kind, so an answer of 'is skipped' on every call doubles the work list at every node of an untaken chain (2^N: twenty skipped nodes take half a second, thirty would need gigabytes)", 1)
 	{
 		rs := w.Fn("compose", "dagChannel.reportSkip")
-		fSk := w.Field("compose", "dagChannel", "Skipped")
+		fSk := dagSkipFlag(w)
 		var loads []*ssa.UnOp
 		var store *ssa.Store
 		instrs(rs, func(in ssa.Instruction) {
